@@ -54,6 +54,7 @@ type NodeSim struct {
 	ForkEvents []ForkEvent
 
 	stopRequested   bool
+	failedOp        string
 	stopReturnedSeq uint64
 	// firstLocator: per trusted connection, "" if the first header request started at the node's
 	// stored tip, else a description (only recorded when the map is non-nil)
